@@ -1345,6 +1345,71 @@ impl<'a> UnsafeWorldCell<'a> {
     }
 }
 
+#[cfg(feature = "verif-hooks")]
+impl World {
+    /// Read-only dump of the internal bookkeeping, for external consistency audits.
+    pub fn verif_snapshot(&self) -> String {
+        let mut out = String::new();
+        let locs = self.entities.verif_locs();
+        let (res_index, res_count) = self.reserved_entities.verif_state();
+        let mut nki = locs.next_key_iter();
+        let next_key = nki.next(locs);
+        writeln!(
+            out,
+            "ent len={} nextfree={} res.index={} res.count={} nextkey={} queue={}",
+            locs.len(),
+            locs.verif_next_free(),
+            res_index,
+            res_count,
+            match next_key {
+                Some(k) => format!("{k:?}"),
+                None => "none".into(),
+            },
+            self.event_queue.len()
+        )
+        .unwrap();
+        out.push_str("locs [");
+        for (i, (k, loc)) in locs.iter().enumerate() {
+            write!(
+                out,
+                "{}{:?}@{}:{}",
+                if i > 0 { "," } else { "" },
+                k,
+                loc.archetype.0,
+                loc.row.0
+            )
+            .unwrap();
+        }
+        out.push_str("]\n");
+        self.archetypes.verif_snapshot(&mut out);
+        self.handlers.verif_snapshot(&mut out);
+        for info in self.components.iter() {
+            write!(out, "member {} [", info.id().index().0).unwrap();
+            for (i, a) in info.member_of.iter().enumerate() {
+                write!(out, "{}{}", if i > 0 { "," } else { "" }, a.0).unwrap();
+            }
+            out.push_str("]\n");
+        }
+        out
+    }
+
+    /// Sets the slot generation of a live entity (and the id stored in its archetype row) so that
+    /// generation wrap-around becomes reachable. Returns the entity's new id.
+    pub fn verif_set_entity_generation(&mut self, id: EntityId, generation: u32) -> Option<EntityId> {
+        let loc = self.entities.get(id)?;
+        let new_id = EntityId::new(id.index().0, generation)?;
+        if !self
+            .entities
+            .verif_locs_mut()
+            .verif_set_generation(id.index().0, generation)
+        {
+            return None;
+        }
+        self.archetypes.verif_set_entity_id(loc, new_id);
+        Some(new_id)
+    }
+}
+
 #[cfg(test)]
 mod tests {
     use alloc::rc::Rc;
